@@ -341,6 +341,8 @@ pub fn run(fields: &[&str]) -> String {
             return format!("QUEUE-NOT-DRAINED {}", tok.sink.render());
         }
     }
-    tok.end();
+    if get_opt(fields[0], "end", true) {
+        tok.end();
+    }
     format!("{} F={}", tok.sink.render(), log.join(","))
 }
